@@ -109,6 +109,15 @@ func (r *Run) store(p Ptr, v Value, t types.Type) {
 	if r.nthreads > 1 {
 		r.recordAccess(p.A, p.I, true)
 	}
+	if r.local != nil {
+		root := p.A
+		for root.P != nil {
+			root = root.P
+		}
+		if root.ID <= r.local.idBase {
+			panic(mergeAbort{"store to pre-existing memory"})
+		}
+	}
 	if p.SI != nil {
 		r.storeSym(p, v)
 		return
@@ -454,6 +463,9 @@ func (r *Run) loadView(v *View, t types.Type) Value {
 }
 
 func (r *Run) storeView(v *View, val Value, t types.Type) {
+	if r.local != nil {
+		panic(mergeAbort{"view store"})
+	}
 	r.viewWrite(v, 0, r.toBytes(val, t))
 }
 
